@@ -148,7 +148,8 @@ def gen_training(rng, kind=None):
 
 # ---------------------------------------------------------------- a ruleset name that is trained more than once
 
-RETRAIN_VARIANTS = ["ngram", "ngram", "ngram", "alphabet_size", "encoding", "list", "everything", "same"]
+RETRAIN_VARIANTS = ["ngram", "ngram", "ngram", "alphabet_size", "encoding", "list", "everything", "same", "same_characters",
+                    "same_characters"]
 NGRAM_PAIRS = [(4, 5), (3, 4), (5, 4), (2, 3), (3, 2), (4, 3), (5, 3), (2, 4)]
 
 
@@ -169,8 +170,9 @@ def _other_encodings(cfg):
 def gen_retraining(rng, kind=None, cli=False, variant=None):
     """A HISTORY of trainings onto one ruleset name: {"steps": [cfg, ..., target cfg], "variants": [...]}.
     The last step is the ruleset under test; the earlier ones are what the directory held before: the same list with
-    another n-gram size (4 then 5, 3 then 4, ...), another alphabet size, another encoding, another list, everything
-    different, or exactly the same training again.  cli: only what trainer.py has an option for (max_len stays 21)."""
+    another n-gram size (4 then 5, 3 then 4, ...), another alphabet size, another encoding, another list, the same
+    characters in other passwords (same settings and usually the same learned alphabet), everything different, or exactly
+    the same training again.  cli: only what trainer.py has an option for (max_len stays 21)."""
     target = gen_training(rng, kind)
     if cli:
         target = dict(target, max_len=21)
@@ -202,6 +204,12 @@ def gen_retraining(rng, kind=None, cli=False, variant=None):
             prev.pop("counts", None)
             if any(_unencodable(p, cur["encoding"]) for p in prev["passwords"]):
                 prev["encoding"] = "utf-8"
+        elif v == "same_characters":
+            # an "updated version of the same list": the same characters with the same counts (every password but the first
+            # reversed or rotated), so that the settings AND the learned alphabet can stay what they were while the tables change
+            k = rng.choice([0, 1, 2])
+            pws = cur["passwords"]
+            prev = dict(cur, passwords=pws[:1] + [(p[::-1] if k == 0 else p[k:] + p[:k]) for p in pws[1:]])
         elif v == "everything":
             prev = gen_training(rng, None)
             if cli:
